@@ -80,6 +80,10 @@ class VersionConversion:
       l = getattr(self, "_to_"+version+"_a")()
       if l:
         try:
+          if self.vlevel < 1:
+            # (the fields are valid in the version of the line, not
+            # necessarily in the other one)
+            gfapy.Line(list(l), version=version, vlevel=1)
           converted = gfapy.Line(l, version=version, vlevel=self.vlevel)
         except:
           raise gfapy.RuntimeError("Conversion to {} failed\n".format(version)+
